@@ -228,7 +228,7 @@ R"(
     SBEPP_CPP20_CONSTEXPR ::std::size_t operator()(
         ::sbepp::detail::size_bytes_tag) const noexcept
     {{
-        const auto last = {last_member}();
+        const auto last = this->{last_member}();
         return ::sbepp::addressof(last) + ::sbepp::size_bytes(last)
                - (*this)(::sbepp::detail::addressof_tag{{}});
     }}
